@@ -137,6 +137,11 @@ def gen_surgery_op(rng: random.Random, target: list, m: MG, ops: tuple = SURGERY
         ):
             S = _subset(rng, nodes)
             a = {"S": S, "c": _container(rng, S)}
+            if rng.random() < 0.05:
+                # fault 'badarg': an argument that names a node the graph does not have.  Whatever the call
+                # does (raise, ignore it), the receiver must come out unchanged; the result is not judged.
+                a["bad"] = "Zzmissing"
+                a["c"] = rng.choice(("set", "list", "tuple"))
         elif op == "get_markov_pillow":
             S = _subset(rng, nodes)
             a = {"S": S, "c": _container(rng, S, single_ok=False)}
@@ -185,6 +190,8 @@ def gen_dsep_op(rng: random.Random, target: list, m: MG) -> dict | None:
 def model_op(spec: dict, m: MG) -> tuple[str, Any, MG | None]:
     """(kind, expected canonical value or checker tag, resulting model if graph-valued)."""
     op, a = spec["op"], spec["a"]
+    if a.get("bad"):
+        return "badarg", None, None
     if op == "subgraph":
         r = m.subgraph(a["S"])
         return "graph", r.canonical(), r
@@ -337,7 +344,7 @@ def prepare_surgery(spec: dict, tgt: NxMixedGraph) -> Callable[[], Any]:
     op, a = spec["op"], spec["a"]
     if op in ("subgraph", "remove_in_edges", "remove_out_edges", "remove_nodes_from",
               "ancestors_inclusive", "descendants_inclusive", "get_markov_pillow", "get_markov_blanket"):
-        arg = _mkarg(a["S"], a["c"])
+        arg = _mkarg(a["S"] + ([a["bad"]] if a.get("bad") else []), a["c"])
         meth = getattr(tgt, op)
         return lambda: meth(arg)
     if op == "intervene":
@@ -640,6 +647,8 @@ class CaseRun:
                         if status == "abort":
                             self.stats["faults"]["abort"] += 1
                             audit(f"after abort of {c}#{k} ({spec['op']})")
+                        elif (spec.get("a") or {}).get("bad"):
+                            audit(f"after bad-argument call {c}#{k} ({spec['op']}: {status})")
                 return body
 
             bodies = {c: make_body(c, scripts[c]) for c in sorted(scripts)}
@@ -752,6 +761,12 @@ class CaseRun:
         ops[op] = ops.get(op, 0) + 1
         kind, exp, rm, m = e
         judged = op in JUDGED[self.prop]
+        if kind == "badarg":
+            # only the receiver is judged (audit right away); the outcome itself is whatever it is
+            results[key] = ("badarg", status if status != "exc" else "exc:" + type(val).__name__)
+            self.stats["faults"]["badarg"] = self.stats["faults"].get("badarg", 0) + 1
+            self._probe(f"badarg:{op}:{status}")
+            return
         if status == "abort":
             results[key] = ("abort",)
             return
